@@ -51,6 +51,12 @@ impl Guarded {
         Guarded { map, map_len, ptr, len: data.len() }
     }
 
+    /// Non-owning view of memory somebody else owns (a constructed tag, a built
+    /// structure): only the base of the offsets `off` reports; nothing is unmapped on drop.
+    pub fn foreign(ptr: *const u8, len: usize) -> Self {
+        Guarded { map: core::ptr::null_mut(), map_len: 0, ptr: ptr as *mut u8, len }
+    }
+
     pub fn slice(&self) -> &[u8] {
         unsafe { core::slice::from_raw_parts(self.ptr, self.len) }
     }
@@ -62,6 +68,8 @@ impl Guarded {
 
 impl Drop for Guarded {
     fn drop(&mut self) {
-        unsafe { munmap(self.map as *mut c_void, self.map_len) };
+        if !self.map.is_null() {
+            unsafe { munmap(self.map as *mut c_void, self.map_len) };
+        }
     }
 }
